@@ -133,3 +133,70 @@ PROPS["C16"] = {
     "assumptions": SCAN_ASSUME,
     "explanation": "Lexer.Reset is proved to re-establish exactly the state NewLexer creates (pos, line, column); with the deterministic Scan contract the token sequences coincide.",
 }
+
+
+TOKGEN_CONTRACTS = "{repo}/internal/token/gen/golang/zz_contracts_verif.go"
+PARGEN_CONTRACTS = "{repo}/internal/parser/gen/golang/zz_contracts_verif.go"
+PARSER_CARRIERS = ("recover", "conflict")
+
+
+def parse_govc(prop):
+    return [{"dir": "{gen}/" + c, "pkgs": ["./parser", "./token"], "contracts": [STDLIB, TOKGEN_CONTRACTS, PARGEN_CONTRACTS], "prop": prop} for c in PARSER_CARRIERS]
+
+
+def parse_bounded(prop, depth_q=4, depth_t=6):
+    out = []
+    for c in PARSER_CARRIERS:
+        out.append({
+            "name": "PARSE-%s-%s" % (prop, c), "stands_in_for": ["parser.(*Parser).Parse", "parser.(*Parser).Error", "parser.(*Parser).newError", "parser.(*stack).popN", "parser.(*stack).push",
+                                                                 "parser.(*Parser).firstRecoveryState", "parser.(*Parser).popNonRecoveryStates", "parser.(*Parser).Reset", "parser.NewParser"],
+            "gen_dir": "{gen}/" + c, "copy": {"harness/parse/verif_parse_test.go": "parser/verif_parse_test.go"},
+            "pkg": "./parser", "run": "TestVerifParse",
+            "env": {"VERIF_PARSE": {"quick": "enum:%d" % depth_q, "thorough": "enum:%d" % depth_t}, "VERIF_PARSE_PROP": prop.lower()},
+            "replay_env": "VERIF_PARSE",
+        })
+    return out
+
+
+def extra_parametric_parser(run):
+    import expand
+    plain = {k: v for k, v in run.carriers.items() if k in ("recover", "conflict", "recover_zip", "conflict_zip")}
+    diffs = expand.parametricity(plain, "parser/parser.go")
+    v = [{"id": "parametricity:parser/parser.go", "what": "generated parser functions differ between carriers: %s" % diffs, "input": None}] if diffs else []
+    return {"name": "parametricity(parser/parser.go)", "cases": len(plain), "violations": v,
+            "note": "the run-time functions of parser.go are textually identical across carrier grammars and across plain/-zip"}
+
+
+PARSE_ASSUME = [
+    "WF_parse: every table entry is in range (checked on emitted tables by the SYN sweep of the LR validator)",
+    "viable-stack interface (axiom schemata VInit, VStates, VShift, VReduce, VAccept, VPrefix, VExt instantiated on ground stack views): a reduce always finds its handle and a goto entry - a property of the automaton, discharged per table set by the LR(1) validator plus the trusted LR theorem, not proved by govc",
+    "WFrecover: the canRecover flag of a state holds exactly when the state can shift the error symbol (generator contract on Item.canRecover/ItemSet.CanRecover; checked on emitted tables by the LR validator)",
+    "trusted contracts: Scanner.Scan returns non-nil tokens with a type in [0,numSymbols), EOF for ever from some point on; user ReduceFuncs do not write parser memory or retain X; action.String is pure",
+    "termination of the Parse loop is not proved (a reduce step consumes no input): it follows from the trusted LR theorem for validated tables",
+    "the contract is proved on the expansion of two carrier grammars (concrete table sizes), and the run-time functions are checked to be textually identical across all carriers",
+]
+PARSE_TRUSTED = COMMON_TRUSTED + ["text/template expansion (the expanded parser package is what is verified)", "LR theorem (Aho-Sethi-Ullman 4.7): a conflict-free canonical LR(1) automaton accepts exactly L(G), reduces in reverse right-most order, and its reachable stacks satisfy the viable-stack interface"]
+
+for _p, _txt in {
+    "C02": "Run-time half: Parse is proved, for arbitrary tables satisfying WF_parse and the viable-stack interface and arbitrary token streams, to execute exactly one step of the LR machine M(T) per loop iteration (shift/reduce/accept as the table entry says, goto lookup, stack discipline) and never to panic. That M(T) accepts exactly L(G) is the trusted LR theorem applied to tables validated by the bounded SYN sweep (generator half, labelled bounded).",
+    "C03": "Run-time half: each reduce step calls the production's ReduceFunc exactly once (ghost call trace) with X = the top NumSymbols attributes in order (same backing array, so the same objects) and C = p.Context; a shift pushes the very token object the scanner returned; an action error ends Parse at once with an error carrying it; accept returns the attribute of the top symbol. Post-order evaluation follows from the trusted LR theorem. The rewriting of action text (SDTVal) and the default actions are checked by the generator-side contracts and bounded checks.",
+    "C06": "Run-time half: on a syntax error with no recovery state Parse returns an error carrying the very token that had no action, the number of the state on top, and as expected list exactly the names of the non-nil entries of that state's row in column order (proved with the counting function CntRow); nothing further is scanned. Exactness of the row (canonical look-aheads) is the generator half, decided by the bounded SYN sweep.",
+    "C07": "Error, popNonRecoveryStates, firstRecoveryState and Parse's recovery path are proved against the recovery rule of the property: discard above the topmost state that can shift the error symbol, push the error attribute (offending token, discarded attributes in stack order) on the state reached by shifting the error symbol, skip input starting with the offending token up to the first acceptable token but not past EOF, return the error otherwise; no panic (type assertion, indices); the skip loop terminates; tokens are consumed in input order (ghost scan counter).",
+}.items():
+    PROPS[_p] = {
+        "level": "other" if _p in ("C02", "C03", "C06") else "proof",
+        "prepare": prepare_expand,
+        "govc": parse_govc(_p),
+        "bounded": parse_bounded(_p),
+        "extra": [extra_parametric_parser],
+        "trusted_base": PARSE_TRUSTED,
+        "assumptions": PARSE_ASSUME,
+        "explanation": _txt,
+    }
+
+PROPS["C16"]["govc"] += parse_govc("C16")
+PROPS["C16"]["bounded"] += parse_bounded("C16", 4, 5)
+PROPS["C16"]["extra"].append(extra_parametric_parser)
+PROPS["C16"]["assumptions"] = SCAN_ASSUME + PARSE_ASSUME
+PROPS["C16"]["trusted_base"] = PARSE_TRUSTED
+PROPS["C16"]["explanation"] += " Parser: Parse is proved with no assumption on what earlier calls left in the parser object (only p.stack != nil): Reset yields the one-element stack, nextToken is assigned before it is read, so the step contract makes result, error, expected list and action calls a function of tables, token stream and Context alone."
